@@ -392,6 +392,9 @@ pub fn check(sc: &Scenario, ex: &mut Exec) -> (Verdict, Option<String>) {
                 let mut class = "unclassified".to_string();
                 if rowpriv_join {
                     class = "rowpriv_join".into();
+                } else if a.arg.contains(" / 2.0") && !a.arg.contains("cast(") {
+                    // known finding: the float literal 2.0 is rendered `2`, integer / 2 divides integers
+                    class = "integer_valued_float_literal".into();
                 } else if a.distinct {
                     // excused only if the group really holds duplicate values of the argument
                     let dup_sql = format!(
